@@ -131,6 +131,53 @@ def bounded_compute_path(chk):
                        [fail] if fail else [])
 
 
+def bounded_self_inclusion(chk):
+    """a template that includes itself k times through tag bodies that are parsed by a nested parser: the number of
+    nested parses must not grow like k**depth"""
+    import signal
+    import time
+    from mwlib.parser.refine import uparser
+    from contracts import docs
+
+    class Stop(BaseException):
+        pass
+
+    def alarm(*_):
+        raise Stop()
+    fails, n = [], 0
+    old = signal.signal(signal.SIGALRM, alarm)
+    try:
+        for tag, body in (("ref", "<ref>{{T}}</ref>"), ("poem", "<poem>{{T}}</poem>"), ("gallery", "<gallery>\n{{T}}\n</gallery>"),
+                          ("mixed", "<ref>{{T}}</ref><poem>{{T}}</poem>")):
+            for k in (1, 2, 3, 4, 6):
+                n += 1
+                t0 = time.process_time()
+                signal.setitimer(signal.ITIMER_REAL, 30.0, 1.0)
+                try:
+                    db = docs.DB("en")
+                    db.templates = {"T": body * k}
+                    uparser.parse_string("A", raw="{{T}}", wikidb=db, lang="en")
+                    took = time.process_time() - t0
+                    why = None if took < 20.0 else f"took {took:.0f} s cpu"
+                except Stop:
+                    why = "no result after 30 s"
+                except Exception as e:  # noqa: BLE001
+                    why = f"raised {type(e).__name__}: {e}"[:200]
+                finally:
+                    signal.setitimer(signal.ITIMER_REAL, 0)
+                if why:
+                    fails.append({"detail": f"template T = {body!r} * {k}, article '{{{{T}}}}': {why}",
+                                  "witness": {"template_T": body * k, "article": "{{T}}"}, "class": f"self-inclusion:{tag}"})
+                    break
+            if fails:
+                break
+    finally:
+        signal.signal(signal.SIGALRM, old)
+    chk.bounded_result("self_inclusion_through_tag_bodies", n, n, True,
+                       "a template including itself 1, 2, 3, 4, 6 times through <ref> / <poem> / <gallery> / mixed bodies: an article tree within 20 s cpu",
+                       fails[:1])
+
+
 def bounded_parse(chk):
     from contracts import docs
     res = docs.run_passes(chk.tier, chk.seed, want=("c01",))
@@ -145,6 +192,7 @@ def run(chk):  # noqa: F811
     p4_regex_ambiguity(chk)
     p5_sections_progress(chk)
     bounded_compute_path(chk)
+    bounded_self_inclusion(chk)
     bounded_parse(chk)
     chk.assumptions += [
         "whole-pipeline totality (20 refinement passes, tagext/imgmap handlers, the C++ scanner) is NOT a discharged contract: only the leaf mechanisms above are proved; the rest is observed by the bounded stand-in",
